@@ -291,6 +291,47 @@ def smtpd_size_sites(db, rep):
 
 
 
+def wrapper_returns_only_positive(db, rep, p, f, entry):
+    """explore a read/write wrapper: the underlying timeoutread/timeoutwrite/read/write yields -1 (timeout or other
+    error), 0 or 5: the wrapper may return only on 5, with 5"""
+    class SR(QHooks):
+        def __init__(self):
+            self.rets = []
+
+        def tracked_global(self, path):
+            return path.startswith('$')
+
+        def prim_timeoutread(self, E, x, args):
+            return [Outcome(ret=fs(-1), sets={'$errno': fs(110), '$r': fs(-1)}), Outcome(ret=fs(-1), sets={'$errno': fs(5), '$r': fs(-1)}),
+                    Outcome(ret=fs(0), sets={'$r': fs(0)}), Outcome(ret=fs(5), sets={'$r': fs(5)})]
+
+        prim_read = prim_write = prim_timeoutwrite = prim_timeoutread
+
+        def prim___errno_location(self, E, x, args):
+            return [Outcome(ret=fs(('&', '$errno')))]
+
+        def _n(self, E, x, args):
+            return [Outcome(ret=TOP)]
+
+        prim_flush = prim_out = prim_substdio_flush = _n
+
+        def prim__exit(self, E, x, args):
+            return 'noreturn'
+
+        def prim_dropped(self, E, x, args):
+            return 'noreturn'
+
+        def on_return(self, E, fn, val):
+            if fn.name == entry:
+                self.rets.append((g1(E, '$r'), val))
+    SH_ = SR()
+    e_ = Engine(db, p, SH_)
+    e_.run(f, {})
+    rep.count_states(e_.states, e_.transitions)
+    return bool(SH_.rets) and all(r_ == 5 and v_ == fs(5) for r_, v_ in SH_.rets)
+
+
+
 def run(ctx):
     db, rep = ctx.db, ctx.report
     prog = db.program('qmail-smtpd')
@@ -596,38 +637,7 @@ def run(ctx):
         p = db.program(pname)
         f = p.fn('saferead', unit)
 
-        class SR(QHooks):
-            def __init__(self):
-                self.rets = []
-
-            def tracked_global(self, path):
-                return path.startswith('$')
-
-            def prim_timeoutread(self, E, x, args):
-                return [Outcome(ret=fs(-1), sets={'$errno': fs(110), '$r': fs(-1)}), Outcome(ret=fs(-1), sets={'$errno': fs(5), '$r': fs(-1)}),
-                        Outcome(ret=fs(0), sets={'$r': fs(0)}), Outcome(ret=fs(5), sets={'$r': fs(5)})]
-
-            prim_read = prim_timeoutread
-
-            def prim___errno_location(self, E, x, args):
-                return [Outcome(ret=fs(('&', '$errno')))]
-
-            def _n(self, E, x, args):
-                return [Outcome(ret=TOP)]
-
-            prim_flush = prim_out = prim_substdio_flush = _n
-
-            def prim__exit(self, E, x, args):
-                return 'noreturn'
-
-            def on_return(self, E, fn, val):
-                if fn.name == 'saferead':
-                    self.rets.append((g1(E, '$r'), val))
-        SH_ = SR()
-        e_ = Engine(db, p, SH_)
-        e_.run(f, {})
-        rep.count_states(e_.states, e_.transitions)
-        ok = bool(SH_.rets) and all(r_ == 5 and v_ == fs(5) for r_, v_ in SH_.rets)
+        ok = wrapper_returns_only_positive(db, rep, p, f, 'saferead')
         reach = transitive_callees(p, f)
         r6.check(ok and 'qmail_close' not in reach, '%s:saferead-returns-only-positive' % pname, '%s:%d' % (f.unit, f.line),
                  'saferead may return 0/-1 to its caller or reaches qmail_close')
